@@ -210,7 +210,19 @@ var epOps = []epOp{
 	{"Dialer.SetOption", func(l mangos.Listener, d mangos.Dialer) error { return d.SetOption(mangos.OptionReconnectTime, 50*time.Millisecond) }},
 	{"Dialer.GetOption", func(l mangos.Listener, d mangos.Dialer) error { _, err := d.GetOption(mangos.OptionReconnectTime); return err }},
 	{"Dialer.Address", func(l mangos.Listener, d mangos.Dialer) error { _ = d.Address(); return nil }},
+	// options the endpoint itself does not know are passed on to the transport and then to the socket
+	{"Dialer.GetOption(MaxRecvSize)", func(l mangos.Listener, d mangos.Dialer) error { _, err := d.GetOption(mangos.OptionMaxRecvSize); return err }},
+	{"Dialer.GetOption(unknown)", func(l mangos.Listener, d mangos.Dialer) error { _, err := d.GetOption("NO-SUCH-OPTION"); return err }},
+	{"Listener.GetOption(unknown)", func(l mangos.Listener, d mangos.Dialer) error { _, err := l.GetOption("NO-SUCH-OPTION"); return err }},
+	// socket level calls that reach into every dialer / listener
+	{"Socket.SetOption(ReconnectTime)", func(l mangos.Listener, d mangos.Dialer) error { return epSock.SetOption(mangos.OptionReconnectTime, 70*time.Millisecond) }},
+	{"Socket.SetOption(MaxReconnectTime)", func(l mangos.Listener, d mangos.Dialer) error { return epSock.SetOption(mangos.OptionMaxReconnectTime, time.Second) }},
+	{"Socket.SetOption(MaxRecvSize)", func(l mangos.Listener, d mangos.Dialer) error { return epSock.SetOption(mangos.OptionMaxRecvSize, 8192) }},
+	{"Socket.GetOption(ReconnectTime)", func(l mangos.Listener, d mangos.Dialer) error { _, err := epSock.GetOption(mangos.OptionReconnectTime); return err }},
+	{"Socket.Close", func(l mangos.Listener, d mangos.Dialer) error { return epSock.Close() }},
 }
+
+var epSock mangos.Socket
 
 func twoThreadsEndpoints() {
 	scheme := []string{"vt", "tcp"}[kit.ChooseFree(2)]
@@ -220,6 +232,7 @@ func twoThreadsEndpoints() {
 	if err != nil {
 		kit.Failf("setup", "NewSocket: %v", err)
 	}
+	epSock = s
 	laddr, daddr := "vt://c11-ep-l", "vt://c11-ep-d"
 	if scheme == "tcp" {
 		laddr, daddr = "tcp://127.0.0.1:4500", "tcp://127.0.0.1:4501"
@@ -253,6 +266,11 @@ func twoThreadsEndpoints() {
 		if (ca.Err == nil) == (cb.Err == nil) {
 			kit.Failf("started-twice:"+epOps[a].name, "%s: two concurrent %s calls on one object returned %s and %s; exactly one may take effect", scheme, epOps[a].name, kit.ErrName(ca.Err), kit.ErrName(cb.Err))
 		}
+	}
+	gc := kit.Start("GetOption-after", func() (interface{}, error) { _, err := s.GetOption(mangos.OptionReconnectTime); return nil, err })
+	kit.Quiesce()
+	if !gc.Done() {
+		kit.Failf("socket-wedged:endpoint", "%s: Socket.GetOption blocks after %s || %s", scheme, epOps[a].name, epOps[b].name)
 	}
 	cc := kit.Start("Close-after", func() (interface{}, error) { return nil, s.Close() })
 	kit.Quiesce()
